@@ -1,7 +1,7 @@
 (* Extract/ExC16.v — co-process entry points for the C16 correspondence: the identity model
    (Model/Identity.v) AND the independent spec side (Spec/IdentitySpec.v: reply builders, views). *)
 From Coq Require Import String.
-From PV Require Import Base.Bytes Base.Res Base.Proto Base.PyStr Model.Identity Spec.IdentitySpec.
+From PV Require Import Base.Bytes Base.Res Base.Proto Base.PyStr Model.Identity Spec.IdentitySpec Spec.RegistrySpec.
 From PV Require Gen.Vendors Gen.Status.
 From Coq Require Import ExtrOcamlBasic.
 Open Scope string_scope.
@@ -73,6 +73,9 @@ Definition handle (ts : list tok) : list tok :=
         match ident_of_toks args with Some i => toks_of_plc (view_plc i) | None => bad end
       else if is_sym "inrange" cmd then
         match ident_of_toks args with Some i => [TInt (if fields_in_range i then 1 else 0)] | None => bad end
+      (* documented registries (Spec/RegistrySpec.v): `regv` / `regp` -> id text id text ... *)
+      else if is_sym "regv" cmd then flat_map (fun p => [TInt (fst p); TText (snd p)]) spec_vendors
+      else if is_sym "regp" cmd then flat_map (fun p => [TInt (fst p); TText (snd p)]) spec_product_types
       else if is_sym "shex8" cmd then
         match args with [TInt n] => [TText (hex8 n)] | _ => bad end
       else if is_sym "sunhex" cmd then
